@@ -19,6 +19,8 @@ import (
 	"github.com/absfs/absnfs"
 	"pgregory.net/rapid"
 
+	"verif/harness/drv"
+	"verif/harness/nfsx"
 	"verif/harness/stat"
 	"verif/harness/vfs"
 )
@@ -126,3 +128,118 @@ func runC17U(tb stat.TB, c c17UCase) {
 var propC17U = defProp("C17", "TestC17Unreg", genC17U, runC17U)
 
 func TestC17Unreg(t *testing.T) { propC17U.Test(t) }
+
+// ---- connections that arrive while Stop is closing the registered ones
+//
+// Stop closes every registered connection; a connection the accept loop registers during that pass (accepted
+// just before the listener closed) must not outlive Stop either. The schedule is owned by the harness: one of
+// the registered connections blocks in Close() until the late connections have been admitted and their
+// handlers started, exactly what the accept loop does after Accept returned.
+
+type c17SCase struct {
+	Pre     int  `json:"pre"`      // registered connections before Stop
+	Blocker int  `json:"blocker"`  // which of them blocks in Close
+	Late    int  `json:"late"`     // connections admitted while Stop is inside its closing pass
+	CallNow bool `json:"call_now"` // the late clients send their NULL call before Stop goes on (else after Stop returned)
+}
+
+func genC17S(t *rapid.T) c17SCase {
+	c := c17SCase{Pre: rapid.IntRange(1, 4).Draw(t, "pre"), Late: rapid.IntRange(1, 3).Draw(t, "late"), CallNow: rapid.Bool().Draw(t, "call_now")}
+	c.Blocker = rapid.IntRange(0, c.Pre-1).Draw(t, "blocker")
+	return c
+}
+
+type c17BlockConn struct {
+	c17FakeConn
+	entered chan struct{}
+	gate    chan struct{}
+	once    sync.Once
+}
+
+func (b *c17BlockConn) Close() error {
+	b.once.Do(func() { close(b.entered) })
+	<-b.gate
+	return nil
+}
+
+func runC17S(tb stat.TB, c c17SCase) {
+	const id, check = "C17", "TestC17StopRace"
+	v := vfs.New()
+	s := newSession(tb, v, absnfs.ExportOptions{MaxConnections: 100, IdleTimeout: time.Hour})
+	defer s.close()
+	srv := s.e.Srv
+	blocker := &c17BlockConn{entered: make(chan struct{}), gate: make(chan struct{})}
+	blocker.addr = &net.TCPAddr{IP: net.IPv4(127, 0, 0, 1), Port: 30000}
+	for i := 0; i < c.Pre; i++ {
+		if i == c.Blocker {
+			if !srv.VerifAdmit(blocker) {
+				tb.Fatalf("harness: blocker not admitted")
+			}
+			continue
+		}
+		if !srv.VerifAdmit(&c17FakeConn{addr: &net.TCPAddr{IP: net.IPv4(127, 0, 0, 1), Port: 30001 + i}}) {
+			tb.Fatalf("harness: connection not admitted")
+		}
+	}
+	stopDone := make(chan error, 1)
+	go func() { stopDone <- srv.Stop() }()
+	select {
+	case <-blocker.entered:
+	case err := <-stopDone:
+		// Stop did not close the registered connection at all
+		stat.Violate(tb, id, check, "stop-leaves-registered-connection-open", c, "Stop returned (%v) without closing a registered connection", err)
+		close(blocker.gate)
+		return
+	case <-time.After(10 * time.Second):
+		close(blocker.gate)
+		tb.Fatalf("harness: Stop neither closed the blocking connection nor returned")
+	}
+	// Stop is now inside its closing pass: the accept loop hands over connections accepted just before
+	var late []*drv.PipeConn
+	for i := 0; i < c.Late; i++ {
+		if pc := s.e.PipeAdmitted("127.0.0.1", 40000+i); pc != nil {
+			late = append(late, pc)
+		}
+	}
+	null := func(pc *drv.PipeConn, xid uint32) bool {
+		if err := pc.Send(nfsx.Call(xid, nfsx.ProgNFS, 3, 0, nfsx.AuthNone(), nfsx.AuthNone(), nil)); err != nil {
+			return false
+		}
+		rec, err := pc.Recv(700 * time.Millisecond)
+		if err != nil {
+			return false
+		}
+		rp, err := nfsx.ParseReply(rec)
+		return err == nil && rp.Xid == xid
+	}
+	if c.CallNow {
+		for i, pc := range late {
+			null(pc, uint32(900+i)) // during Stop: may or may not be served
+		}
+	}
+	close(blocker.gate)
+	select {
+	case <-stopDone:
+	case <-time.After(15 * time.Second):
+		stat.Violate(tb, id, check, "stop-hangs", c, "Stop did not return within 15 s after every Close returned")
+		return
+	}
+	for i, pc := range late {
+		if null(pc, uint32(950+i)) {
+			stat.Violate(tb, id, check, "served-after-stop", c, "a connection registered while Stop was closing connections (%d registered before, %d arrived during the pass) still answers a NULL call after Stop returned", c.Pre, len(late))
+			return
+		}
+	}
+	for _, pc := range late {
+		pc.Close()
+	}
+	if cnt, tracked := srv.VerifConnCounts(); cnt != 0 || tracked != 0 {
+		stat.Violate(tb, id, check, "connections-counted-after-stop", c, "connCount=%d tracked=%d after Stop returned and every handler ended", cnt, tracked)
+		return
+	}
+	stat.Case(c, len(late) > 0)
+}
+
+var propC17S = defProp("C17", "TestC17StopRace", genC17S, runC17S)
+
+func TestC17StopRace(t *testing.T) { propC17S.Test(t) }
